@@ -57,7 +57,7 @@ theorem vSection_of_diff (ho : RunOptsB o name pname) (hs0 : CleanStart s0) (hna
       VSection o (forced o) (loopStart s0 (diffLines filler old new oldt newt hs)) name bytes m patch0
         { patch0 with hunks := hs } { patch0 with hunks := hs } info par1 par2 r ∧
       r.failed = 0 ∧ r.msgs = [] ∧ r.perfect = true ∧
-      render o.newlineOutput r.out = renderLines o.newlineOutput (splice (splitLines bytes) 0 hs) ∧
+      render o.newlineOutput r.out = Render.renderText o.newlineOutput (splice (splitLines bytes) 0 hs) ∧
       par2.s.eof = true := by
   have hfl : ∀ l ∈ filler, l.newline ≠ .none := by
     intro l hl
@@ -77,7 +77,8 @@ theorem vSection_of_diff (ho : RunOptsB o name pname) (hs0 : CleanStart s0) (hna
     applyPatch_valid (splitLines bytes) hs { patch0 with hunks := hs } (applyOptsOf o)
       (Option.map (fun l => List.map (fun a => !List.isEmpty a && List.head? a != some 110) l) s0.tty)
       hvalid (by rw [hrev]; rfl) ho.base.noDefine ho.base.fuzz
-  refine ⟨patch0, info, par1, par2, r, ?_, hrfail, hrmsgs ho.base.quiet, hrperf, by rw [render, hrout], heof⟩
+  refine ⟨patch0, info, par1, par2, r, ?_, hrfail, hrmsgs ho.base.quiet, hrperf,
+    C01.render_of_lines _ ho.base.noDefine hap hrout, heof⟩
   exact {
     operand := ho.base.operand, noOut := ho.base.noOut, pathNe := hname, cwd := hs0.cwd, hdr := hhdr,
     fmt := Or.inl hf, op := hop, pre := hpre, body := hbody, file := htarget,
@@ -91,11 +92,11 @@ theorem C17_run_filler (ho : RunOpts o name pname) (hnf : o.readOnly ≠ .fail) 
     (hpatch : s0.fs.lookup pname = some (.file (patchText filler old new oldt newt hs) pm))
     (hd : UnifiedDiff filler old new oldt newt hs) (hvalid : Valid (splitLines bytes) 0 0 hs) :
     (runPatch o s0).1 = 0 ∧
-    (runPatch o s0).2.fs.lookup name = some (.file (renderLines o.newlineOutput (splice (splitLines bytes) 0 hs)) m) ∧
+    (runPatch o s0).2.fs.lookup name = some (.file (Render.renderText o.newlineOutput (splice (splitLines bytes) 0 hs)) m) ∧
     (∀ q, q ≠ name → (runPatch o s0).2.fs.lookup q = s0.fs.lookup q) ∧
     (runPatch o s0).2.out = s0.out ++ roEvents o ++ [.file name false] ∧
     (runPatch o s0).2.trace = s0.trace ++ [.tmpCreate, .tmpUnlink, .tmpCreate, .tmpUnlink] ++
-      roResultOps name (renderLines o.newlineOutput (splice (splitLines bytes) 0 hs)) m := by
+      roResultOps name (Render.renderText o.newlineOutput (splice (splitLines bytes) 0 hs)) m := by
   obtain ⟨patch0, info, par1, par2, r, H, hfail, hmsgs, hperf, hrender, heof⟩ :=
     vSection_of_diff (RunOptsB.of_runOpts ho) hs0 hname htarget hd hvalid
   obtain ⟨s', hrun, hfs, htr, _, _, hhf, hout, hdone⟩ :=
@@ -126,11 +127,11 @@ theorem C17_run (o : Options) (s0 : DState) (name pname bytes oldt newt : Bytes)
     (hpatch : s0.fs.lookup pname = some (.file (diffText name name oldt newt hs) pm))
     (hh : DiffHunks hs) (hvalid : Valid (splitLines bytes) 0 0 hs) :
     (runPatch o s0).1 = 0 ∧
-    (runPatch o s0).2.fs.lookup name = some (.file (renderLines o.newlineOutput (splice (splitLines bytes) 0 hs)) m) ∧
+    (runPatch o s0).2.fs.lookup name = some (.file (Render.renderText o.newlineOutput (splice (splitLines bytes) 0 hs)) m) ∧
     (∀ q, q ≠ name → (runPatch o s0).2.fs.lookup q = s0.fs.lookup q) ∧
     (runPatch o s0).2.out = s0.out ++ roEvents o ++ [.file name false] ∧
     (runPatch o s0).2.trace = s0.trace ++ [.tmpCreate, .tmpUnlink, .tmpCreate, .tmpUnlink] ++
-      roResultOps name (renderLines o.newlineOutput (splice (splitLines bytes) 0 hs)) m :=
+      roResultOps name (Render.renderText o.newlineOutput (splice (splitLines bytes) 0 hs)) m :=
   C17_run_filler (filler := []) ho hnf hreal hs0 hn.1 (dirExists_parent_of_noSlash s0.fs hn.2.1) hpn hpd htarget hro hpatch
     (unifiedDiff_of_flat hn hot hnt hh) hvalid
 
@@ -292,24 +293,27 @@ variable {o : Options} {s0 : DState} {name pname bytes : Bytes} {m pm : Nat}
 
 /-- **C17 / C18, the whole program, read-only target, `-b`**: exit status 0; the target holds the result with mode `m`; the
     backup holds the old bytes with the old mode `m` (CHANGED: it was `m ||| writeMask`, see the header of this file); nothing
-    else differs; no `chmod` before the write (`roBackupOps`: `rename`, `creat`, `write`, `chmod name m`) -/
+    else differs; no `chmod` before the write (`roBackupOps`: `rename`, `creat`, `write`, `chmod name m`).
+    (`hbnd`, new with the model change "a file is not renamed onto a directory": the backup name is not that of a directory, else the
+    `rename` fails and the exit status is 2 — `C18Run.BackupNameTaken`.) -/
 theorem C17_run_backup_filler (ho : RunOptsB o name pname) (hb : o.saveBackup = true) (hnf : o.readOnly ≠ .fail)
     (hreal : o.dryRun = false) (hs0 : CleanStart s0) (hbu : s0.backedUp = [])
     (hname : name ≠ []) (hdir : s0.fs.dirExists (parentOf name) = true)
     (hbdirs : DirsThere s0.fs (backupName o name)) (hbdir : s0.fs.dirExists (parentOf (backupName o name)) = true)
+    (hbnd : ∀ m', s0.fs.lookup (backupName o name) ≠ some (.dir m'))
     (hpn : pname ≠ []) (hpd : pname ≠ [45])
     (htarget : s0.fs.lookup name = some (.file bytes m)) (hro : m &&& writeMask = 0)
     (hpatch : s0.fs.lookup pname = some (.file (patchText filler old new oldt newt hs) pm))
     (hd : UnifiedDiff filler old new oldt newt hs) (hvalid : Valid (splitLines bytes) 0 0 hs) :
     (runPatch o s0).1 = 0 ∧
-    (runPatch o s0).2.fs.lookup name = some (.file (renderLines o.newlineOutput (splice (splitLines bytes) 0 hs)) m) ∧
+    (runPatch o s0).2.fs.lookup name = some (.file (Render.renderText o.newlineOutput (splice (splitLines bytes) 0 hs)) m) ∧
     (runPatch o s0).2.fs.lookup (backupName o name) = some (.file bytes m) ∧
     (∀ q, q ≠ name → q ≠ backupName o name → (runPatch o s0).2.fs.lookup q = s0.fs.lookup q) ∧
     (runPatch o s0).2.trace = s0.trace ++ [.tmpCreate, .tmpUnlink, .tmpCreate, .tmpUnlink] ++
-      roBackupOps o name (renderLines o.newlineOutput (splice (splitLines bytes) 0 hs)) m := by
+      roBackupOps o name (Render.renderText o.newlineOutput (splice (splitLines bytes) 0 hs)) m := by
   obtain ⟨patch0, info, par1, par2, r, H, hfail, hmsgs, _, hrender, heof⟩ := vSection_of_diff ho hs0 hname htarget hd hvalid
   obtain ⟨s', hrun, hfs, htr, _, hhf, _, hdone⟩ := processSection_readonly_backup H hro hnf hfail hmsgs hb hreal hdir
-    (by show s0.backedUp.contains _ = false; rw [hbu]; rfl) hbdirs hbdir
+    (by show s0.backedUp.contains _ = false; rw [hbu]; rfl) hbdirs hbdir hbnd
   rw [runPatch_of_end ho.file hs0 hpn hpd hpatch hd s' par2 hrun hdone heof]
   have hnfl : s'.hadFailure = false := by rw [hhf]; exact hs0.noFailure
   have hne : name ≠ backupName o name := fun e => backupName_ne o name e.symm
@@ -331,19 +335,20 @@ end
 theorem C17_run_backup (o : Options) (s0 : DState) (name pname bytes oldt newt : Bytes) (m pm : Nat) (hs : List Hunk)
     (ho : RunOptsB o name pname) (hb : o.saveBackup = true) (hnf : o.readOnly ≠ .fail) (hreal : o.dryRun = false)
     (hs0 : CleanStart s0) (hbu : s0.backedUp = [])
-    (hn : flatName name) (hbn : ∀ c ∈ backupName o name, c ≠ SLASHB) (hpn : pname ≠ []) (hpd : pname ≠ [45])
+    (hn : flatName name) (hbn : ∀ c ∈ backupName o name, c ≠ SLASHB)
+    (hbnd : ∀ m', s0.fs.lookup (backupName o name) ≠ some (.dir m')) (hpn : pname ≠ []) (hpd : pname ≠ [45])
     (htarget : s0.fs.lookup name = some (.file bytes m)) (hro : m &&& writeMask = 0)
     (hot : stampOk oldt) (hnt : stampOk newt)
     (hpatch : s0.fs.lookup pname = some (.file (diffText name name oldt newt hs) pm))
     (hh : DiffHunks hs) (hvalid : Valid (splitLines bytes) 0 0 hs) :
     (runPatch o s0).1 = 0 ∧
-    (runPatch o s0).2.fs.lookup name = some (.file (renderLines o.newlineOutput (splice (splitLines bytes) 0 hs)) m) ∧
+    (runPatch o s0).2.fs.lookup name = some (.file (Render.renderText o.newlineOutput (splice (splitLines bytes) 0 hs)) m) ∧
     (runPatch o s0).2.fs.lookup (backupName o name) = some (.file bytes m) ∧
     (∀ q, q ≠ name → q ≠ backupName o name → (runPatch o s0).2.fs.lookup q = s0.fs.lookup q) ∧
     (runPatch o s0).2.trace = s0.trace ++ [.tmpCreate, .tmpUnlink, .tmpCreate, .tmpUnlink] ++
-      roBackupOps o name (renderLines o.newlineOutput (splice (splitLines bytes) 0 hs)) m :=
+      roBackupOps o name (Render.renderText o.newlineOutput (splice (splitLines bytes) 0 hs)) m :=
   C17_run_backup_filler (filler := []) ho hb hnf hreal hs0 hbu hn.1 (dirExists_parent_of_noSlash s0.fs hn.2.1)
-    (dirsThere_flat s0.fs hbn) (dirExists_parent_of_noSlash s0.fs hbn) hpn hpd htarget hro hpatch
+    (dirsThere_flat s0.fs hbn) (dirExists_parent_of_noSlash s0.fs hbn) hbnd hpn hpd htarget hro hpatch
     (unifiedDiff_of_flat hn hot hnt hh) hvalid
 
 /-- **the backup of a read-only file is the file as it was** (NEW with the model change "the backup is taken before
@@ -352,13 +357,14 @@ theorem C17_run_backup (o : Options) (s0 : DState) (name pname bytes oldt newt :
 theorem C17_run_backup_keeps_mode (o : Options) (s0 : DState) (name pname bytes oldt newt : Bytes) (m pm : Nat) (hs : List Hunk)
     (ho : RunOptsB o name pname) (hb : o.saveBackup = true) (hnf : o.readOnly ≠ .fail) (hreal : o.dryRun = false)
     (hs0 : CleanStart s0) (hbu : s0.backedUp = [])
-    (hn : flatName name) (hbn : ∀ c ∈ backupName o name, c ≠ SLASHB) (hpn : pname ≠ []) (hpd : pname ≠ [45])
+    (hn : flatName name) (hbn : ∀ c ∈ backupName o name, c ≠ SLASHB)
+    (hbnd : ∀ m', s0.fs.lookup (backupName o name) ≠ some (.dir m')) (hpn : pname ≠ []) (hpd : pname ≠ [45])
     (htarget : s0.fs.lookup name = some (.file bytes m)) (hro : m &&& writeMask = 0)
     (hot : stampOk oldt) (hnt : stampOk newt)
     (hpatch : s0.fs.lookup pname = some (.file (diffText name name oldt newt hs) pm))
     (hh : DiffHunks hs) (hvalid : Valid (splitLines bytes) 0 0 hs) :
     (runPatch o s0).2.fs.lookup (backupName o name) = s0.fs.lookup name := by
-  obtain ⟨_, _, hbk, _, _⟩ := C17_run_backup o s0 name pname bytes oldt newt m pm hs ho hb hnf hreal hs0 hbu hn hbn hpn hpd
+  obtain ⟨_, _, hbk, _, _⟩ := C17_run_backup o s0 name pname bytes oldt newt m pm hs ho hb hnf hreal hs0 hbu hn hbn hbnd hpn hpd
     htarget hro hot hnt hpatch hh hvalid
   rw [hbk, htarget]
 
@@ -396,7 +402,7 @@ theorem applies :
       .write name result, .chmod name 0o444] := by
   have h := C17_run o s0 name pname bytes oldt newt 0o444 0o644 [hk] runOpts (by decide) rfl ⟨rfl, rfl, rfl, rfl, rfl, rfl⟩
     (by decide) (by decide) (by decide) rfl (by decide) (by decide) (by decide) rfl diffHunks (validB_sound _ _ _ _ (by decide))
-  have hm : renderLines o.newlineOutput (splice (splitLines bytes) 0 [hk]) = result := by decide
+  have hm : Render.renderText o.newlineOutput (splice (splitLines bytes) 0 [hk]) = result := by decide
   rw [hm] at h
   exact h
 
@@ -409,7 +415,7 @@ theorem applies_ignore :
       file := { patchFile := rfl, noDir := rfl, noHelp := rfl, noVersion := rfl, noContext := rfl, noNormal := rfl, noEd := rfl } }
     (by decide) rfl ⟨rfl, rfl, rfl, rfl, rfl, rfl⟩
     (by decide) (by decide) (by decide) rfl (by decide) (by decide) (by decide) rfl diffHunks (validB_sound _ _ _ _ (by decide))
-  have hm : renderLines oi.newlineOutput (splice (splitLines bytes) 0 [hk]) = result := by decide
+  have hm : Render.renderText oi.newlineOutput (splice (splitLines bytes) 0 [hk]) = result := by decide
   rw [hm] at h
   exact ⟨h.1, h.2.1, h.2.2.2.1⟩
 
@@ -453,9 +459,10 @@ theorem backup_applies :
       .creat name, .write name result, .chmod name 0o444] := by
   have e : backupName ob name = orig := by rw [(C18.backupName_spec ob name).1 rfl rfl, str_orig]; rfl
   have h := C17_run_backup ob s0 name pname bytes oldt newt 0o444 0o644 [hk] C18Run.Instance.runOptsB rfl (by decide) rfl
-    ⟨rfl, rfl, rfl, rfl, rfl, rfl⟩ rfl (by decide) (by rw [e]; decide) (by decide) (by decide) rfl (by decide) (by decide)
+    ⟨rfl, rfl, rfl, rfl, rfl, rfl⟩ rfl (by decide) (by rw [e]; decide) (by rw [e]; exact notDir_of_none (by decide))
+    (by decide) (by decide) rfl (by decide) (by decide)
     (by decide) rfl diffHunks (validB_sound _ _ _ _ (by decide))
-  have hm : renderLines ob.newlineOutput (splice (splitLines bytes) 0 [hk]) = result := by decide
+  have hm : Render.renderText ob.newlineOutput (splice (splitLines bytes) 0 [hk]) = result := by decide
   unfold roBackupOps at h
   rw [hm, e] at h
   exact ⟨h.1, h.2.1, h.2.2.1, h.2.2.2.2⟩
